@@ -449,7 +449,7 @@ PROPS["C26"] = P("exploration",
     "repository's should_panic tests) is counted, not reported; every generated stub becomes a module of one crate that depends on /repo/trustfall "
     "and `cargo test --no-run --offline` (i.e. rustc, including the stub's tests) is the oracle; compile errors are attributed to modules by path "
     "and the remaining modules are re-compiled. distinct_nontrivial = distinct name sets of generated stubs",
-    quick={"cases": 8, "timeout": 900},
+    quick={"cases": 20, "timeout": 900},
     thorough={"cases": 120, "timeout": 2400},
     floors={"evaluations": 8, "distinct": 6},
     technique="runtime monitoring of the generator with rustc as the oracle over its output",
